@@ -90,7 +90,7 @@ func init() {
 		},
 		{
 			ID:          "C03",
-			Rules:       []RuleUse{{Rule: "R-GATE", Bodies: []string{"v5", "codec"}, KeyHas: []string{"CreateMergePatch", "sink "}}, {Rule: "R-NIL", Bodies: []string{"v5"}, KeyHas: []string{"createArrayMergePatch", "createObjectMergePatch"}}, use("R-NUM", "v5", "codec"), {Rule: "R-POOLINIT", Bodies: []string{"codec"}, KeyHas: []string{"useNumber"}}, {Rule: "R-MAPORDER", Bodies: []string{"v5"}, KeyHas: []string{"getDiff", "matchesValue"}}, use("R-CMPSHAPE", "v5"), {Rule: "R-BOUNDS", Bodies: []string{"v5"}, KeyHas: []string{"createArrayMergePatch", "matchesArray"}}, use("R-EXH", "v5"), {Rule: "R-PANIC", Bodies: []string{"v5"}, KeyHas: []string{"getDiff", "matchesValue", "matchesArray"}}},
+			Rules:       []RuleUse{{Rule: "R-GATE", Bodies: []string{"v5", "codec"}, KeyHas: []string{"CreateMergePatch", "sink "}}, {Rule: "R-NIL", Bodies: []string{"v5"}, KeyHas: []string{"createArrayMergePatch", "createObjectMergePatch"}}, use("R-NUM", "v5", "codec"), {Rule: "R-POOLINIT", Bodies: []string{"codec"}, KeyHas: []string{"useNumber"}}, {Rule: "R-MAPORDER", Bodies: []string{"v5"}, KeyHas: []string{"getDiff", "matchesValue"}}, {Rule: "R-MAPORDER", Bodies: []string{"codec"}}, use("R-CMPSHAPE", "v5"), {Rule: "R-BOUNDS", Bodies: []string{"v5"}, KeyHas: []string{"createArrayMergePatch", "matchesArray"}}, use("R-EXH", "v5"), {Rule: "R-PANIC", Bodies: []string{"v5"}, KeyHas: []string{"getDiff", "matchesValue", "matchesArray"}}},
 			Explanation: "Decided for the v5 body: R-GATE (malformed input to CreateMergePatch is rejected before the validity-assuming parse), R-NIL over the create*MergePatch functions, R-NUM + R-POOLINIT/useNumber (numbers are decoded as literals, compared only by literal equality and written back unchanged — 'number literals are carried over unchanged'; two different literals can never compare equal through a machine number type), R-MAPORDER (the diff's map ranges have no order-sensitive effect). R-CMPSHAPE (rejection clause and completeness of the walk: mixed array/object roots return the mismatch error; unequal array lengths are rejected; every element pair goes through the object diff, whose error aborts; every successful return of getDiff has passed both the walk over the modified members and the walk over the original that emits removed members as null; every decode of an input must have succeeded — err == nil, not merely 'no syntax error' — before a patch is produced; the diff goes to the encoder as getDiff produced it; census of getDiff's stores: a member enters the patch only as b's value under b's key where a lacks the key, the dynamic types differ or a value comparison answered false — never inside the arm where a's value is an object — as the non-empty, error-tested recursive diff of two objects, or as null under a key of a that b lacks, and each of these classes has a store; matchesValue/matchesArray pair element i with element i and member k with member k under a size comparison that answers false, compare scalars as the two operands asserted to one type, and a false nested answer is final). R-BOUNDS over the pairwise array walks. R-EXH (every JSON type, including literal-preserving numbers, is handled by matchesValue — equal members are never reported — and by getDiff — no type falls into the panicking default).",
 			NotDecided:  "the round-trip law MergePatch(A, P) = B and minimality as value-level statements (what is decided is which stores can put a member into the patch and under which verdicts, not the contents of the decoded values).",
 			Trusted:     commonTrusted, Assumptions: commonAssumptions,
@@ -188,7 +188,7 @@ func init() {
 		},
 		{
 			ID:          "C17",
-			Rules:       []RuleUse{use("R-SCAN", "codec"), use("R-DRIVER", "codec"), use("R-ESCSET", "codec"), use("R-TABLES", "codec"), use("R-POOL", "codec"), use("R-POOLINIT", "codec"), use("R-KEYORDER", "codec"), use("R-NUM", "codec"), {Rule: "R-EFFECT", Bodies: []string{"codec"}}, {Rule: "R-GLOBALS", Bodies: []string{"codec"}}},
+			Rules:       []RuleUse{use("R-SCAN", "codec"), use("R-DRIVER", "codec"), use("R-ESCSET", "codec"), use("R-TABLES", "codec"), use("R-POOL", "codec"), use("R-POOLINIT", "codec"), use("R-KEYORDER", "codec"), use("R-NUM", "codec"), {Rule: "R-EFFECT", Bodies: []string{"codec"}}, {Rule: "R-GLOBALS", Bodies: []string{"codec"}}, {Rule: "R-MAPORDER", Bodies: []string{"codec"}}},
 			Explanation: "Decided for the embedded codec: R-SCAN + R-DRIVER (the syntax accepted by Valid/Compact/Indent/Unmarshal is exactly RFC 8259 — complete decision of the scanner automaton, see C16; the opcode the scanner reports for each byte equals the documented event, and compact drops exactly the bytes reported as scanSkipSpace or later while Indent skips exactly scanSkipSpace, so Compact and Indent change only insignificant whitespace plus the escaping substitutions of R-ESCSET), and for the fork-added machinery: R-POOL + R-POOLINIT (the pooled decodeState/encodeState/scanner are transparent: never used after Put, never aliased by a result, every field a recycled state can expose is rewritten first — data, off, savedError, opcode, useNumber, the scanner's step/err/endTop/parseState/bytes, the encoder's buffer and ptrLevel — with reviewed idioms for errorContext, disallowUnknownFields, lastKeys, ptrSeen), R-ESCSET + R-TABLES (Compact, HTMLEscape and both string encoders escape exactly the documented byte sets with the documented spelling; the HTML-escaping switch changes nothing but {<,>,&}, and in compact additionally U+2028/9), R-KEYORDER (the key list reported for an object is its member names in document order: one unconditional append per member, before the value, in a call-local list), R-NUM (numbers keep their literal through decode and encode), R-EFFECT + R-GLOBALS on the codec (no write into caller-visible byte slices; tables such as safeSet/htmlSafeSet/hex are immutable).",
 			NotDecided:  "equivalence with the standard library over all Go values and types (reflection-driven, value-level); Decoder/Encoder stream behaviour; round-trip of strings.",
 			Trusted:     commonTrusted, Assumptions: commonAssumptions,
